@@ -163,6 +163,8 @@ class ConcurrentExecutor(ABC, Generic[CallableType, ResultType]):
         # Event-driven state tracking for when the executor is done
         self._completion_event = threading.Event()
         self._suspend_exception: SuspendExecution | None = None
+        # A BaseException other than suspend/orphan that left a branch (e.g. BackgroundThreadError)
+        self._fatal_exception: BaseException | None = None
 
         # ExecutionCounters will keep track of completion criteria and on-going counters
         min_successful = self.completion_config.min_successful or len(self.executables)
@@ -209,10 +211,18 @@ class ConcurrentExecutor(ABC, Generic[CallableType, ResultType]):
         ]
         self._completion_event.clear()
         self._suspend_exception = None
+        self._fatal_exception = None
 
         def resubmitter(executable_with_state: ExecutableWithState) -> None:
             """Resubmit a timed suspended task."""
-            execution_state.create_checkpoint()
+            try:
+                execution_state.create_checkpoint()
+            except BaseException as e:  # noqa: BLE001
+                # Checkpointing is broken (BackgroundThreadError): wake the caller instead of dying silently
+                # in the timer thread, which would leave it waiting forever.
+                self._fatal_exception = e
+                self._completion_event.set()
+                return
             submit_task(executable_with_state)
 
         thread_executor = ThreadPoolExecutor(max_workers=max_workers)
@@ -241,6 +251,11 @@ class ConcurrentExecutor(ABC, Generic[CallableType, ResultType]):
 
                 # Wait for completion
                 self._completion_event.wait()
+
+                # A branch (or the timer thread) hit a fatal error such as BackgroundThreadError:
+                # terminate with it, nothing more can be recorded.
+                if self._fatal_exception is not None:
+                    raise self._fatal_exception
 
                 # Cancel futures that haven't started yet
                 for future in futures:
@@ -331,6 +346,12 @@ class ConcurrentExecutor(ABC, Generic[CallableType, ResultType]):
         except Exception as e:  # noqa: BLE001
             exe_state.fail(e)
             self.counters.fail_task()
+        except BaseException as e:  # noqa: BLE001
+            # e.g. BackgroundThreadError: it must not be lost inside concurrent.futures (which only logs
+            # exceptions of done-callbacks and swallows nothing else): wake the caller so it can terminate.
+            self._fatal_exception = e
+            self._completion_event.set()
+            return
 
         # Check if execution should complete or suspend
         if self.counters.should_complete():
